@@ -484,6 +484,14 @@ fn item_call(m: &str, a: &[Value]) -> Value {
         }
         "equals" => val(json!(Item::equals(&j2item(&a[0]), &j2item(&a[1])))),
         "shallow_eq" => val(json!(j2item(&a[0]) == j2item(&a[1]))),
+        // find(item, pattern, start count, n): the n-th point of the pattern's kind, counted depth-first from the top
+        "find" => {
+            let mut cnt = us(&a[2]);
+            match Item::find(&j2item(&a[0]), &j2item(&a[1]), &mut cnt, &us(&a[3])) {
+                Ok(it) => json!({"t": "ok", "v": item2j(&it)}),
+                Err(k) => json!({"t": "err", "v": k}),
+            }
+        }
         "to_string" => val(json!(j2item(&a[0]).to_string())),
         _ => json!({"t": "harness", "v": "unknown method"}),
     }
